@@ -1,8 +1,8 @@
 ---- MODULE Registry ----
 (* The process-global MAC-command registry and the framing of command streams that depends on it.
    reg maps <<dir, cid>> to the payload size registered for a proprietary CID.
-   RegisterProprietaryMACCommand(uplink, cid, size):  error unless 128 <= cid <= 255; size 0 is a
-   documented no-op; otherwise the size is recorded for that direction only.
+   RegisterProprietaryMACCommand(uplink, cid, size):  error unless 128 <= cid <= 255; a negative size is
+   refused; otherwise the size is recorded for that direction only (size 0: the CID carries no payload again).
    (D): for every registration history and every command sequence whose proprietary commands carry
    exactly the registered number of bytes, decoding the concatenation yields the sequence
    (self-delimiting), and a CID registered in one direction has size 0 in the other. *)
@@ -11,14 +11,14 @@ EXTENDS Integers, Sequences, SequencesExt, FiniteSets, TLC, Json, IOUtils, CSV, 
 MaxHist == IF IOEnv.VERIF_REGHIST = "3" THEN 3 ELSE 2
 OutFile == IOEnv.VERIF_CASES
 CIDs == {3, 127, 128, 200, 255}
-Sizes == {0, 1, 2}
+Sizes == {-1, 0, 1, 2}
 Dirs == {"up", "down"}
 
 VARIABLES reg, hist
 vars == <<reg, hist>>
 
 RegOK(cid) == cid >= 128 /\ cid <= 255
-Apply(r, dir, cid, size) == IF RegOK(cid) /\ size > 0
+Apply(r, dir, cid, size) == IF RegOK(cid) /\ size >= 0
                               THEN [k \in (DOMAIN r) \cup {<<dir, cid>>} |-> IF k = <<dir, cid>> THEN size ELSE r[k]]
                               ELSE r
 
@@ -26,7 +26,7 @@ Init == reg = <<>> /\ hist = <<>>
 Register(dir, cid, size) ==
   /\ Len(hist) < MaxHist
   /\ reg' = Apply(reg, dir, cid, size)
-  /\ hist' = Append(hist, [dir |-> dir, cid |-> cid, size |-> size, err |-> IF RegOK(cid) THEN "" ELSE "error"])
+  /\ hist' = Append(hist, [dir |-> dir, cid |-> cid, size |-> size, err |-> IF RegOK(cid) /\ size >= 0 THEN "" ELSE "error"])
 Next == \E d \in Dirs, c \in CIDs, s \in Sizes : Register(d, c, s)
 
 \* palette of commands per direction: standard sizes 0,1,2,4,5 and the proprietary CIDs framed
@@ -42,7 +42,7 @@ SelfDelimiting == \A dir \in Dirs : \A s \in Streams(dir) :
                      LET bytes == Concat([i \in 1..Len(s) |-> <<s[i].cid>> \o s[i].raw])
                          d == DecodeStreamRaw(reg, dir, bytes)
                      IN  d.ok /\ d.cmds = s
-DirectionOnly == \A k \in DOMAIN reg : RegOK(k[2]) /\ reg[k] > 0
+DirectionOnly == \A k \in DOMAIN reg : RegOK(k[2]) /\ reg[k] >= 0
 StdUntouched == \A dir \in Dirs : \A c \in 0..127 : RegSize(reg, dir, c) = Size(dir, c)
 
 Emit == Len(hist) = 0 \/ CSVWrite("%1$s", <<ToJson([hist |-> hist])>>, OutFile)
